@@ -52,15 +52,21 @@ def regression_model(ctx):
         raise vf.MachineryError("regression config no longer violates the reply contract (vacuous model?)")
 
 
-def replay(ctx, focus, families, num, variants):
+def replay(ctx, focus, families, num, variants, upstream="", guard=None):
+    """upstream: "" = the scripted tail in the resolver's place; "forwarder" = the whole chain with the real forwarder
+    toward a scripted socket upstream (harness/serve/relay_test.go).  guard(behs): vacuity check on the drawn sample."""
     total = {"behaviours": 0, "drift": 0}
     for fam in families:
         behs = behaviours_for(ctx, fam, num)
+        if guard:
+            guard(fam, behs)
         for b in behs:
-            ctx._distinct.add("serve:%s:%r" % (fam, b))
-        inp = {"behaviours": behs, "variants": variants, "focus": focus}
-        res = ctx.go_driver("./serve", "TestServeReplay", inp, name="serve_%s_%s" % (focus, fam), timeout=1200)
-        ctx.take_driver_result(res, "[Serve %s] " % fam)
+            ctx._distinct.add("serve:%s:%s:%r" % (fam, upstream, b))
+        inp = {"behaviours": behs, "variants": variants, "focus": focus, "upstream": upstream}
+        tag = fam + ("_" + upstream if upstream else "")
+        res = ctx.go_driver("./serve", "TestServeReplay", inp, name="serve_%s_%s" % (focus, tag), timeout=1200)
+        ctx.take_driver_result(res, "[Serve %s] " % tag)
+        fam = tag
         ctx.cov["replay"]["serve_" + fam] = {
             "behaviours": len(behs), "cases": res["cases"], "drift": res["drift"],
             "drift_notes": res.get("drift_notes", [])[:5], "counters": res.get("counters", {})}
@@ -70,3 +76,54 @@ def replay(ctx, focus, families, num, variants):
         if res["cases"] == 0:
             raise vf.MachineryError("serve replay ran no cases for family " + fam)
     return total
+
+
+# ---- relay: what an upstream's message may carry against what the client negotiated ------------------------------
+TWO_OPT = ("up2optF", "up2optL", "up2optB")
+
+
+def _relay_guard(fam, behs):
+    """every seed must draw the cells the family exists for: a miss on each two-OPT content by a client that
+    negotiated EDNS (one OPT and two), by one that did not, and a two-OPT request that carries client options"""
+    need = {(c, o) for c in TWO_OPT for o in ("ok", "dup", "none")} | {("dupreq", "opts")}
+    for b in behs:
+        st = b["steps"][0]
+        p = st["pkt"]
+        if st["content"] in TWO_OPT and st["expTail"]:
+            need.discard((st["content"], p["opt"]))
+        for st in b["steps"]:
+            p = st["pkt"]
+            if p["opt"] == "dup" and st["expTail"] and (p["ecs"] != "none" or p["cookie"] != "none" or p["pad"]):
+                need.discard(("dupreq", "opts"))
+    if need:
+        raise vf.MachineryError("relay sample misses the cells %s (seed-dependent vacuity)" % sorted(need))
+
+
+def relay_family(ctx, focus, thorough):
+    """Serve.tla family "relay": upstream messages with TWO OPT records (options of the upstream's own exchange in
+    the first, the last, both) and requests with two OPT records, against clients with one OPT, two, none.
+    Model: repaired writer / normaliser passes; the two as-built twins must refute the named property.
+    Code: the same behaviours through the scripted tail AND through the real forwarder + socket upstream."""
+    ctx.tlc("Serve", "MC_Serve.tla", "MC_Serve_relay.cfg", workers=4, timeout=900, heap="4g")
+    for cfg, want in (("MC_Serve_twoopt_asbuilt.cfg", "ReplyContract"), ("MC_Serve_dupreq_asbuilt.cfg", "NoClientOptionUpstream")):
+        r = ctx.tlc("Serve", "MC_Serve.tla", cfg, workers=4, timeout=600, heap="4g", must_pass=False, count=False, tag="as-built-must-fail")
+        if r.violated != want:
+            raise vf.MachineryError("%s: expected %s to fail, got %r (vacuous model element?)" % (cfg, want, r.violated))
+    num, variants = (400, 2) if not thorough else (3000, 3)
+    replay(ctx, focus, ["relay"], num=num, variants=variants, guard=_relay_guard)
+    replay(ctx, focus, ["relay"], num=num, variants=variants, upstream="forwarder", guard=_relay_guard)
+
+
+def replay_record(ctx, rec, focus):
+    """bin/check C06|C19 --replay <file> for a violation recorded by the Serve driver: the recorded history alone."""
+    rp = rec.get("replay", rec)
+    if not isinstance(rp, dict) or rp.get("driver") != "serve" or not rp.get("steps"):
+        return False
+    beh = {"cfg": rp["cfg"], "steps": rp["steps"]}
+    inp = {"behaviours": [beh], "variants": 3, "focus": focus, "upstream": rp.get("upstream", "")}
+    res = ctx.go_driver("./serve", "TestServeReplay", inp, name="serve_replay_file", timeout=600)
+    ctx.take_driver_result(res, "[replay] ")
+    ctx.cov["states"] = max(1, ctx.cov["states"])
+    ctx.cov["transitions"] = max(1, ctx.cov["transitions"])
+    ctx.cov["replay"]["replayed_file"] = {"cases": res["cases"], "upstream": rp.get("upstream", "")}
+    return True
